@@ -228,6 +228,102 @@ harnesses! {
     fn c09_t_revcomp_dna_k4 [34] { revcomp::<4>(); }
     fn c09_t_revcomp_dna_k16 [34] { revcomp::<16>(); }
     fn c09_t_revcomp_dna_k21 [34] { revcomp::<21>(); }
+    // every K that fits (thorough)
+    fn c09_t_comp_dna_k2 [34] { comp::<2>(); }
+    fn c09_t_revcomp_dna_k2 [34] { revcomp::<2>(); }
+    fn c09_t_rev_dna_k3 [34] { rev::<Dna, 3>(); }
+    fn c09_t_comp_dna_k3 [34] { comp::<3>(); }
+    fn c09_t_revcomp_dna_k3 [34] { revcomp::<3>(); }
+    fn c09_t_comp_dna_k4 [34] { comp::<4>(); }
+    fn c09_t_comp_dna_k5 [34] { comp::<5>(); }
+    fn c09_t_revcomp_dna_k5 [34] { revcomp::<5>(); }
+    fn c09_t_rev_dna_k6 [34] { rev::<Dna, 6>(); }
+    fn c09_t_comp_dna_k6 [34] { comp::<6>(); }
+    fn c09_t_revcomp_dna_k6 [34] { revcomp::<6>(); }
+    fn c09_t_rev_dna_k8 [34] { rev::<Dna, 8>(); }
+    fn c09_t_comp_dna_k8 [34] { comp::<8>(); }
+    fn c09_t_revcomp_dna_k8 [34] { revcomp::<8>(); }
+    fn c09_t_rev_dna_k9 [34] { rev::<Dna, 9>(); }
+    fn c09_t_comp_dna_k9 [34] { comp::<9>(); }
+    fn c09_t_revcomp_dna_k9 [34] { revcomp::<9>(); }
+    fn c09_t_rev_dna_k10 [34] { rev::<Dna, 10>(); }
+    fn c09_t_comp_dna_k10 [34] { comp::<10>(); }
+    fn c09_t_revcomp_dna_k10 [34] { revcomp::<10>(); }
+    fn c09_t_rev_dna_k11 [34] { rev::<Dna, 11>(); }
+    fn c09_t_comp_dna_k11 [34] { comp::<11>(); }
+    fn c09_t_revcomp_dna_k11 [34] { revcomp::<11>(); }
+    fn c09_t_rev_dna_k12 [34] { rev::<Dna, 12>(); }
+    fn c09_t_comp_dna_k12 [34] { comp::<12>(); }
+    fn c09_t_revcomp_dna_k12 [34] { revcomp::<12>(); }
+    fn c09_t_rev_dna_k13 [34] { rev::<Dna, 13>(); }
+    fn c09_t_comp_dna_k13 [34] { comp::<13>(); }
+    fn c09_t_revcomp_dna_k13 [34] { revcomp::<13>(); }
+    fn c09_t_rev_dna_k14 [34] { rev::<Dna, 14>(); }
+    fn c09_t_comp_dna_k14 [34] { comp::<14>(); }
+    fn c09_t_revcomp_dna_k14 [34] { revcomp::<14>(); }
+    fn c09_t_rev_dna_k15 [34] { rev::<Dna, 15>(); }
+    fn c09_t_comp_dna_k15 [34] { comp::<15>(); }
+    fn c09_t_revcomp_dna_k15 [34] { revcomp::<15>(); }
+    fn c09_t_comp_dna_k17 [34] { comp::<17>(); }
+    fn c09_t_revcomp_dna_k17 [34] { revcomp::<17>(); }
+    fn c09_t_rev_dna_k18 [34] { rev::<Dna, 18>(); }
+    fn c09_t_comp_dna_k18 [34] { comp::<18>(); }
+    fn c09_t_revcomp_dna_k18 [34] { revcomp::<18>(); }
+    fn c09_t_rev_dna_k19 [34] { rev::<Dna, 19>(); }
+    fn c09_t_comp_dna_k19 [34] { comp::<19>(); }
+    fn c09_t_revcomp_dna_k19 [34] { revcomp::<19>(); }
+    fn c09_t_rev_dna_k20 [34] { rev::<Dna, 20>(); }
+    fn c09_t_comp_dna_k20 [34] { comp::<20>(); }
+    fn c09_t_revcomp_dna_k20 [34] { revcomp::<20>(); }
+    fn c09_t_rev_dna_k21 [34] { rev::<Dna, 21>(); }
+    fn c09_t_comp_dna_k21 [34] { comp::<21>(); }
+    fn c09_t_rev_dna_k22 [34] { rev::<Dna, 22>(); }
+    fn c09_t_comp_dna_k22 [34] { comp::<22>(); }
+    fn c09_t_revcomp_dna_k22 [34] { revcomp::<22>(); }
+    fn c09_t_rev_dna_k23 [34] { rev::<Dna, 23>(); }
+    fn c09_t_comp_dna_k23 [34] { comp::<23>(); }
+    fn c09_t_revcomp_dna_k23 [34] { revcomp::<23>(); }
+    fn c09_t_rev_dna_k24 [34] { rev::<Dna, 24>(); }
+    fn c09_t_comp_dna_k24 [34] { comp::<24>(); }
+    fn c09_t_revcomp_dna_k24 [34] { revcomp::<24>(); }
+    fn c09_t_rev_dna_k25 [34] { rev::<Dna, 25>(); }
+    fn c09_t_comp_dna_k25 [34] { comp::<25>(); }
+    fn c09_t_revcomp_dna_k25 [34] { revcomp::<25>(); }
+    fn c09_t_rev_dna_k26 [34] { rev::<Dna, 26>(); }
+    fn c09_t_comp_dna_k26 [34] { comp::<26>(); }
+    fn c09_t_revcomp_dna_k26 [34] { revcomp::<26>(); }
+    fn c09_t_rev_dna_k27 [34] { rev::<Dna, 27>(); }
+    fn c09_t_comp_dna_k27 [34] { comp::<27>(); }
+    fn c09_t_revcomp_dna_k27 [34] { revcomp::<27>(); }
+    fn c09_t_rev_dna_k28 [34] { rev::<Dna, 28>(); }
+    fn c09_t_comp_dna_k28 [34] { comp::<28>(); }
+    fn c09_t_revcomp_dna_k28 [34] { revcomp::<28>(); }
+    fn c09_t_rev_dna_k29 [34] { rev::<Dna, 29>(); }
+    fn c09_t_comp_dna_k29 [34] { comp::<29>(); }
+    fn c09_t_revcomp_dna_k29 [34] { revcomp::<29>(); }
+    fn c09_t_rev_dna_k30 [34] { rev::<Dna, 30>(); }
+    fn c09_t_comp_dna_k30 [34] { comp::<30>(); }
+    fn c09_t_revcomp_dna_k30 [34] { revcomp::<30>(); }
+    fn c09_t_rev_iupac_k2 [34] { rev::<Iupac, 2>(); }
+    fn c09_t_rev_iupac_k3 [34] { rev::<Iupac, 3>(); }
+    fn c09_t_rev_iupac_k5 [34] { rev::<Iupac, 5>(); }
+    fn c09_t_rev_iupac_k6 [34] { rev::<Iupac, 6>(); }
+    fn c09_t_rev_iupac_k7 [34] { rev::<Iupac, 7>(); }
+    fn c09_t_rev_iupac_k8 [34] { rev::<Iupac, 8>(); }
+    fn c09_t_rev_iupac_k9 [34] { rev::<Iupac, 9>(); }
+    fn c09_t_rev_iupac_k10 [34] { rev::<Iupac, 10>(); }
+    fn c09_t_rev_iupac_k11 [34] { rev::<Iupac, 11>(); }
+    fn c09_t_rev_iupac_k12 [34] { rev::<Iupac, 12>(); }
+    fn c09_t_rev_iupac_k13 [34] { rev::<Iupac, 13>(); }
+    fn c09_t_rev_iupac_k14 [34] { rev::<Iupac, 14>(); }
+    fn c09_t_rev_amino_k1 [34] { rev::<Amino, 1>(); }
+    fn c09_t_rev_amino_k2 [34] { rev::<Amino, 2>(); }
+    fn c09_t_rev_amino_k4 [34] { rev::<Amino, 4>(); }
+    fn c09_t_rev_amino_k5 [34] { rev::<Amino, 5>(); }
+    fn c09_t_rev_amino_k6 [34] { rev::<Amino, 6>(); }
+    fn c09_t_rev_amino_k7 [34] { rev::<Amino, 7>(); }
+    fn c09_t_rev_amino_k8 [34] { rev::<Amino, 8>(); }
+    fn c09_t_rev_amino_k9 [34] { rev::<Amino, 9>(); }
     // rotate / push (bit-slice round trip: integer -> BitArray -> rotate/store -> integer)
     fn c09_q_rotl_dna_k5_n0 [6] { rotl_body!(kmer, usize, Dna, 5, 0) }
     fn c09_q_rotr_dna_k5_n0 [6] { rotr_body!(kmer, usize, Dna, 5, 0) }
